@@ -55,7 +55,8 @@ def st_entries(draw, pool_size, max_chains=4, max_entries=8, lp_ties=None):
             )
         chains.append(dict(chain_num=c, entries=ents))
     order = draw(st.permutations(list(range(len(chains)))))
-    return dict(chains=chains, order=list(order))
+    # recorded iteration numbers as a run writes them: the state after burn-in as 0, then 0, thin, 2*thin, ...
+    return dict(chains=chains, order=list(order), thin=draw(st.sampled_from([1, 3, 2, 5])))
 
 
 # ---------------------------------------------------------------------------
@@ -104,17 +105,24 @@ def write_trace(ds, pool, ent, path, scratch_dir):
     results = {}
     flat = []  # (chain_num, position, MTree, lp)
     chains = [ent["chains"][i] for i in ent["order"]]
+    import pickle
+
     for ch in chains:
         trace = []
+        # every chain runs in its own worker process and its result comes back pickled on its own: the chains of a real
+        # trace never share DataPoint objects
+        cdata = pickle.loads(pickle.dumps(data))
+        dd = {dp.idx: dp for dp in cdata}
         for pos, e in enumerate(ch["entries"]):
             mt = mts[e["tree"]]
             rep = dict(e["rep"])
             if rep.get("style") == "graft" and any(len(b) == 0 for b in mt.blocks):
                 rep["style"] = "post"
             t = gen.build_repr(mt, dd, grid, rep)
-            trace.append({"iter": pos, "time": 0.0, "alpha": e["alpha"], "log_p_one": e["lp"], "tree": t.to_dict()})
+            it = pos if ent.get("thin") is None else max(0, pos - 1) * ent["thin"]
+            trace.append({"iter": it, "time": 0.0, "alpha": e["alpha"], "log_p_one": e["lp"], "tree": t.to_dict()})
             flat.append((ch["chain_num"], pos, mt, e["lp"]))
-        results[ch["chain_num"]] = {"data": data, "samples": samples, "trace": trace, "chain_num": ch["chain_num"]}
+        results[ch["chain_num"]] = {"data": cdata, "samples": samples, "trace": trace, "chain_num": ch["chain_num"]}
     cluster_file = None
     if cluster_rows is not None:
         cluster_file = os.path.join(scratch_dir, "clusters.tsv")
